@@ -27,10 +27,12 @@ UNDER CONTRACT (real text, extracted on every run)
     checksum::Formatter::{new, write_str, write_checksum_if_not_alt} (the wrapper Display for Tr writes through; the checksum CHARACTERS are k10_checksum's)
     PreOrderIter::{next, skip_descendants} (expression/mod.rs) over c11_policy_parse's model of the expression-tree array
     Tr::from_tree           the walk over the expression tree below the second child of `tr(..)`: for EVERY shape s that the sub-tree spells, the tree built is
-                            Some, its depth list is depths_of(s, 0), leaf i is Miniscript::from_tree of the i-th leaf node in pre-order, and it is well-formed;
-                            TapTreeBuilder::{new, push_inner_node, push_leaf, finalize} are CONSUMED through contracts (proved complete by Kani in unit k15_taptree:
-                            harnesses builder_new, builder_push_inner_node, builder_push_leaf_h*, builder_finalize) in Seq form over the view
-                            `bit d-1 = level d has its left subtree finished` (equivalence of the clause form and the Seq form: builder_clauses_are_the_seq_contract)
+                            Some, its depth list is depths_of(s, 0), leaf i is Miniscript::from_tree of the i-th leaf node in pre-order, and it is well-formed
+                            (denotes s); no panic: `finalize` is never reached with an empty builder, no `unwrap` on None (for EVERY well-formed expression tree)
+    TapTreeBuilder::{new, push_inner_node, finalize}   against the view `path` = [level d has its left subtree finished | d = 1 ..= current_height] (= the path from the root to
+                            the node expected next); push_leaf (bit arithmetic) is CONSUMED through the contract proved complete by Kani in unit k15_taptree (harnesses
+                            builder_push_leaf_h*) in Seq form: records (current_height, leaf), path' == carry(path) (equivalence of Kani's clause form and the Seq form:
+                            builder_clauses_are_the_seq_contract, proved)
     NOT duplicated: TapTree::{leaf, combine} (c08_taptree_compile; here only the lemma that its contract means `denotes Branch(l, r)`), TapTree::leaves / TapTreeIter (c20_iters),
     Tr::translate_pk's Ok-iff clauses (c20_translate; here what its uninterpreted spec_taptree_translate MEANS)
 
@@ -41,7 +43,13 @@ REWRITES (all mechanical; a missing pattern is UNDECIDED)
           parameter types and `ensures`
     R18   `write!(F, "lit{}lit{:?}", a, b)` -> `F.write_str("lit")?; fmt::Display::fmt(&a, F')?; F.write_str("lit")?; fmt::Debug::fmt(&b, F')?` (definition of
           format_args! / fmt::write: pieces and arguments alternate, in order; F' = F for a fmt::Formatter, F.formatter() for the checksum wrapper)
-    R7    `a..=b` -> RangeInclusive::new(a, b); `Self::Item` -> the item type; `impl Iterator for PreOrderIter { fn next }` verified as inherent method; paths
+    R7    `a..=b` -> RangeInclusive::new(a, b); `Self::Item` -> the item type; `impl Iterator for PreOrderIter { fn next }` / `impl fmt::Write for checksum::Formatter
+          { fn write_str }` verified as inherent methods; paths; R14 / R12 as in c12_from_tree (verify_toplevel / verify_n_children chains, Tap::CONSENSUS)
+Contracts are written with canonical parameter names and renamed to the names the real text uses (with_real_names); locals are read off the text.
+
+Mutation tests (scratch worktree; all red on the named clause, see the unit report): seeded C15b (reuse of the previous translated `(depth, Arc)` entry) -> depth_of_every_leaf_so_far_kept;
+reverse iteration; `*depth + 1`; `}` one level early; `,` after `{`; last braces left open; leaf pushed before its parent's inner node; tree printed before the key; skip_descendants dropped /
+off by one; key translated before the tree.  Benign (green): renamed locals / parameters, temporaries, reordered independent statements, `write!` split in two.
 """
 import re
 
@@ -66,6 +74,32 @@ EXPR = "src/expression/mod.rs"
 CHECKSUM = "src/descriptor/checksum.rs"
 
 DROPPED = [
+    "c15_tapops: TapTree::translate_pk: `for (depth, leaf) in &self.depths_leaves { BODY }` -> index loop with `let (depth, leaf) = (&entry.0, &entry.1);` (R8; also `.iter()` / `.iter().rev()`: std slice "
+    "iterator front to back / back to front), BODY verbatim whatever it contains.  Miniscript::translate_pk is an uninterpreted FUNCTION (state before, leaf) -> (result, state after): what it does per node "
+    "is unit c20_translate's; `impl PartialEq for Miniscript` is an arbitrary verdict (no text of the unchanged tree compares leaves)",
+    "c15_tapops: Tr::translate_pk: Tr::new is a contract stub (Ok iff tap_pk_ok(key), keeps key and tree; its text is verified in c12_from_tree); c20_translate's Ok-iff clauses are not repeated",
+    "c15_tapops: fmt_helper: `for item in view.leaves() { BODY }` -> index loop over `view.depths_leaves` building `TapTreeIterItem { depth, node }` per entry (R8; trusted here, PROVED in c20_iters: "
+    "TapTreeIter::next yields exactly these items in order), BODY verbatim; the function gets a GHOST parameter `tt_pt` (the token the leaf printer appends for a leaf) and the three call sites pass it (R10, erased)",
+    "c15_tapops: core::fmt is a token log (model of c10_notation): `write_str(s)` appends Str(s); traits fmt::Display / fmt::Debug with abstract token sequences (keys: abstract; Miniscript: one uninterpreted "
+    "token; `impl Display / Debug for &T` forward); `write!(F, FMT, args)` is expanded to the calls format_args! + core::fmt::write make (R18): literal pieces via F.write_str, `{}` / `{:?}` via "
+    "fmt::Display::fmt(&arg, F') / fmt::Debug::fmt(&arg, F') in order, first error returned; F' = F.plain() (same output, flags of the placeholder) resp. wrapped_f.formatter() for the checksum wrapper "
+    "(the Formatter core::fmt::write builds over a fmt::Write writer).  Format strings with width / `#` / named or positional arguments / escaped braces -> UNDECIDED",
+    "c15_tapops: `impl fmt::Display / fmt::Debug for TapTree / Tr`: the impl headers get the bound `Pk: fmt::Display` / `fmt::Debug` spelled out (a supertrait of the real MiniscriptKey); well-formedness of the "
+    "tree (type invariant of TapTree, unit k15_taptree / c08_taptree_compile / this unit's from_tree + translate_pk clauses) is the trait-level precondition `disp_pre` / `dbg_pre`",
+    "c15_tapops: checksum::Formatter: real struct (lifetime parameter of fmt::Formatter dropped) + real `new`, `write_str` (verified as inherent method; `|_|` -> `|_e: ChecksumError|`), `write_checksum_if_not_alt`; "
+    "Engine is opaque, write_checksum appends ONE token Tok::Checksum (the characters are unit k10_checksum's), `use fmt::Write;` dropped",
+    "c15_tapops: expression tree: TreeNode / TreeIterItem / DirectChildIterator / Parens real, over c11_policy_parse's MODEL (wf_tree ASSUMED: what expression::Tree::from_str builds); its accessor contracts are "
+    "consumed (same Clause objects).  core::ops::RangeInclusive<usize> is a verified transcription of std's definition (struct RangeInclusive; `a..=b` -> RangeInclusive::new(a, b)); "
+    "`impl Iterator for PreOrderIter { fn next }` is verified as an inherent method (`Self::Item` -> TreeIterItem<'s>; closure typed, R10)",
+    "c15_tapops: Tr::from_tree: `X.verify_toplevel(NAME, A..=B).map_err(From::from).map_err(Error::Parse)` / verify_n_children likewise -> stubs verify_toplevel_ / verify_n_children_ (R14; Ok ==> / <==> the number "
+    "of children is in the range); `.map_err(Error::Parse)` / `.map_err(Error::Validation)` eta-expanded; `Tap::CONSENSUS` -> `Tap::CONSENSUS()`; `x.name().to_owned()` / `.is_empty()` -> std stubs; "
+    "Miniscript::from_tree is an uninterpreted function of the node, validate an arbitrary verdict (units c10_notation / c12_from_tree); Pk: FromStrKey -> Pk: MiniscriptKey",
+    "c15_tapops: TapTreeBuilder: real struct; new / push_inner_node / finalize VERIFIED here against the path view; push_leaf (bit arithmetic) consumed as a contract proved complete by Kani (k15_taptree), "
+    "specialised to the Miniscript argument of its only call site (`ms.into()` = Arc::new(ms)); bit_of uninterpreted + axiom `the word 0 has no bit set`",
+    "c15_tapops: NOT decided (the rest of `parse(print(t)) == t`): that expression::Tree::from_str turns the printed punctuation `{` L `,` R `}` into a Curly node with exactly the children L, R in order "
+    "(hypothesis `spells(ns, x, s)`; C10 lists Tree::from_str as not verified), and the round trip of the LEAF texts (c10_notation, per node).  Under that hypothesis: depth list, leaf order, well-formedness "
+    "and shape are proved for every tree shape, unbounded",
+    "c15_tapops: call-stack / allocation failure is not modelled; Vec lengths are assumed to fit usize (vstd)",
 ]
 
 
@@ -421,7 +455,6 @@ pub proof fn leaf_contract_means_leaf(dc: Seq<nat>)
 # =====================================================================================================================================
 TRANSLATE_STUBS = r"""
 // ---- key translation (R7 stubs): the translator is a STATE; translating a leaf is a function of (state, leaf) and yields the next state ----
-pub struct Error { opaque: u8 }
 pub trait Translator<P: MiniscriptKey>: Sized {
     type TargetPk: MiniscriptKey;
     type Error;
@@ -476,22 +509,27 @@ pub open spec fn leaf_translation<Pk: MiniscriptKey, T: Translator<Pk>>(st: T, d
 # R8: `for (A, B) in &X.depths_leaves { BODY }` -> index loop; BODY verbatim, whatever statements it contains
 # ----------------------------------------------------------------------------------------------------------------------------------
 def tuple_for_loop(invariant, before="", body_pre="", after=""):
+    """`for (A, B) in &X.depths_leaves` / `X.depths_leaves.iter()` / `X.depths_leaves.iter().rev()` (std: the slice iterator front to back, `rev` back to front)"""
     @rule("R8-depths-leaves")
     def rw(text):
-        m = re.search(r"\bfor\s+\(\s*(\w+)\s*,\s*(\w+)\s*\)\s+in\s+&\s*([\w.]+)\s*\.depths_leaves\s*\{", text)
+        m = re.search(r"\bfor\s+\(\s*(\w+)\s*,\s*(\w+)\s*\)\s+in\s+(?:&\s*([\w.]+?)\s*\.depths_leaves|([\w.]+?)\s*\.depths_leaves\s*\.iter\(\)(\s*\.rev\(\))?)\s*\{", text)
         if not m:
             return None
-        if ".rev()" in text[m.start():m.end()]:
-            return None
-        a, b, src = m.group(1), m.group(2), m.group(3)
+        a, b, src = m.group(1), m.group(2), m.group(3) or m.group(4)
+        rev = bool(m.group(5))
         open_ = m.end() - 1
         close = match_close(text, open_)
         body = text[open_ + 1:close]
         body = re.sub(r"\bcontinue\s*;", "{ tt_i += 1; continue; }", body)
-        d = dict(A=a, B=b, SRC=src)
+        mret = re.search(r"let\s+mut\s+(\w+)\s*=\s*TapTree\s*\{", text)
+        mtr = re.search(r"(\w+)\s*:\s*&\s*mut\s+T\b", text)
+        if not mret or not mtr:
+            return None
+        d = dict(A=a, B=b, SRC=src, RET=mret.group(1), TR=mtr.group(1))
+        idx = "tt_src.len() - 1 - tt_i" if rev else "tt_i"
         head = (before + "let tt_src = %(SRC)s.depths_leaves.as_slice();\n        let mut tt_i: usize = 0;\n        while tt_i < tt_src.len()\n"
                 "            invariant\n" + invariant + "\n            decreases tt_src.len() - tt_i\n        {\n"
-                "            let tt_entry = &tt_src[tt_i];\n            let (%(A)s, %(B)s) = (&tt_entry.0, &tt_entry.1);\n" + body_pre) % d
+                "            let tt_entry = &tt_src[" + idx + "];\n            let (%(A)s, %(B)s) = (&tt_entry.0, &tt_entry.1);\n" + body_pre) % d
         return text[:m.start()] + head + body + "\n            tt_i += 1;\n        }\n" + (after % d) + text[close + 1:]
     return rw
 
@@ -507,19 +545,19 @@ def body_start(ghost):
 OK_T = "Ok::<Miniscript<T::TargetPk, Tap>, TranslateErr<T::Error>>"
 TRANSLATE_INV = (
     "                tt_src@ == %%(SRC)s.depths_leaves@, tt_i <= tt_src@.len(),\n"
-    "                ret.depths_leaves@.len() == tt_i, //@inv one_translated_leaf_per_leaf_so_far [C15,C20]\n"
-    "                *translate == tt_state(*old(translate), %%(SRC)s.depths_leaves@, tt_i as int), //@inv translator_state_is_threaded_in_listing_order [C15,C20]\n"
-    "                forall|i: int| 0 <= i < tt_i ==> (#[trigger] ret.depths_leaves@[i]).0 == %%(SRC)s.depths_leaves@[i].0, //@inv depth_of_every_leaf_so_far_kept [C15,C20]\n"
-    "                forall|i: int| 0 <= i < tt_i ==> leaf_translation(*old(translate), %%(SRC)s.depths_leaves@, i) == %s(*(#[trigger] ret.depths_leaves@[i]).1), //@inv every_leaf_so_far_is_the_translation_of_its_leaf [C15,C20]\n"
-    "                forall|j: int| 0 <= j < tt_i ==> (#[trigger] leaf_translation(*old(translate), %%(SRC)s.depths_leaves@, j)) is Ok, //@inv no_leaf_so_far_failed [C20]"
+    "                %%(RET)s.depths_leaves@.len() == tt_i, //@inv one_translated_leaf_per_leaf_so_far [C15,C20]\n"
+    "                *%%(TR)s == tt_state(*old(%%(TR)s), %%(SRC)s.depths_leaves@, tt_i as int), //@inv translator_state_is_threaded_in_listing_order [C15,C20]\n"
+    "                forall|i: int| 0 <= i < tt_i ==> (#[trigger] %%(RET)s.depths_leaves@[i]).0 == %%(SRC)s.depths_leaves@[i].0, //@inv depth_of_every_leaf_so_far_kept [C15,C20]\n"
+    "                forall|i: int| 0 <= i < tt_i ==> leaf_translation(*old(%%(TR)s), %%(SRC)s.depths_leaves@, i) == %s(*(#[trigger] %%(RET)s.depths_leaves@[i]).1), //@inv every_leaf_so_far_is_the_translation_of_its_leaf [C15,C20]\n"
+    "                forall|j: int| 0 <= j < tt_i ==> (#[trigger] leaf_translation(*old(%%(TR)s), %%(SRC)s.depths_leaves@, j)) is Ok, //@inv no_leaf_so_far_failed [C20]"
     % OK_T)
 TRANSLATE_PRE = ("            proof {\n"
-                 "                let tt_t0 = leaf_translation(*old(translate), %(SRC)s.depths_leaves@, tt_i as int);     // what translating THIS leaf now gives\n"
-                 "                assert(tt_t0 == ms_translate(*translate, *tt_entry.1));\n"
+                 "                let tt_t0 = leaf_translation(*old(%(TR)s), %(SRC)s.depths_leaves@, tt_i as int);     // what translating THIS leaf now gives\n"
+                 "                assert(tt_t0 == ms_translate(*%(TR)s, *tt_entry.1));\n"
                  "            }\n")
 TRANSLATE_AFTER = ("        proof {\n"
-                   "            assert(tap_depths(ret) =~= tap_depths(*%(SRC)s));\n"
-                   "            lemma_same_depths_same_shape(*%(SRC)s, ret);\n"
+                   "            assert(tap_depths(%(RET)s) =~= tap_depths(*%(SRC)s));\n"
+                   "            lemma_same_depths_same_shape(*%(SRC)s, %(RET)s);\n"
                    "        }\n")
 
 STRIP_DERIVE = sub("R1-derive", r"#\[derive\([^)]*\)\]\s*", "", required=False)
@@ -532,7 +570,7 @@ def emit_translate(vf):
     with vf.block("impl<Pk: MiniscriptKey> TapTree<Pk>"):
         vf.fn(TAPTREE, "impl:TapTree<Pk>/fn:translate_pk", qual="TapTree", props=("C15", "C20", "C11"),
               rewrites=[sub("R7", r"\bcrate::", ""), tuple_for_loop(TRANSLATE_INV, body_pre=TRANSLATE_PRE, after=TRANSLATE_AFTER)],
-              contract=Contract(ensures=[
+              contract=with_real_names(vf.repo, TAPTREE, "impl:TapTree<Pk>/fn:translate_pk", ["translate"], Contract(ensures=[
                   C("number_of_leaves_kept", "r is Ok ==> %s.len() == %s.len()" % (RD, DL), P1520),
                   C("depth_of_every_leaf_kept", "r is Ok ==> forall|i: int| 0 <= i < %s.len() ==> (#[trigger] %s[i]).0 == %s[i].0" % (DL, RD, DL), P1520),
                   C("leaf_i_is_the_translation_of_leaf_i", "r is Ok ==> forall|i: int| 0 <= i < %s.len() ==> leaf_translation(%s, %s, i) == %s(*(#[trigger] %s[i]).1)"
@@ -542,7 +580,7 @@ def emit_translate(vf):
                   C("well_formedness_kept", "r is Ok ==> tap_tree_wf(r->Ok_0) == tap_tree_wf(*self)", P1520),
                   C("error_is_the_first_failing_leaf", "r is Err ==> exists|i: int| 0 <= i < %s.len() && leaf_translation(%s, %s, i) == Err::<Miniscript<T::TargetPk, Tap>, TranslateErr<T::Error>>(r->Err_0) "
                     "&& forall|j: int| 0 <= j < i ==> (#[trigger] leaf_translation(%s, %s, j)) is Ok" % (DL, ST0, DL, ST0, DL), ("C20",)),
-              ]))
+              ]))[0])
         register_named_invariants(vf, "TapTree::translate_pk")
     # Tr::translate_pk: c20_translate proves WHEN it is Ok (over an uninterpreted tree summary); here what happens to the tree structure
     ST1 = "(match self.tree { Some(tt) => tt_state(%s, tt.depths_leaves@, tt.depths_leaves@.len() as int), None => %s })" % (ST0, ST0)
@@ -550,7 +588,7 @@ def emit_translate(vf):
         vf.fn(TRMOD, "impl:Tr<Pk>/fn:translate_pk", qual="Tr", props=("C15", "C20", "C11"),
               rewrites=[lit("R12-eta", ".map_err(TranslateErr::OuterError)",
                             ".map_err(|e: Error| -> (o: TranslateErr<T::Error>) ensures o == TranslateErr::<T::Error>::OuterError(e) { TranslateErr::OuterError(e) })")],
-              contract=Contract(ensures=[
+              contract=with_real_names(vf.repo, TRMOD, "impl:Tr<Pk>/fn:translate_pk", ["translate"], Contract(ensures=[
                   C("no_tree_stays_no_tree", "r is Ok ==> (self.tree is None <==> r->Ok_0.tree is None)", P1520),
                   C("tree_structure_kept", "r is Ok ==> (self.tree matches Some(tt) ==> r->Ok_0.tree matches Some(rt) && tap_depths(rt) == tap_depths(tt) "
                     "&& tap_tree_wf(rt) == tap_tree_wf(tt) && (tap_tree_wf(tt) ==> shape_of(denoted(rt)) == shape_of(denoted(tt))))", P1520),
@@ -559,7 +597,7 @@ def emit_translate(vf):
                   C("internal_key_translated_after_the_leaves", "r is Ok ==> T::spec_pk(%s, self.internal_key) == Ok::<T::TargetPk, T::Error>(r->Ok_0.internal_key)" % ST1, ("C20",)),
                   C("translator_state_threaded", "r is Ok ==> *final(translate) == T::spec_pk_state(%s, self.internal_key)" % ST1, ("C20",)),
                   C("translated_key_checked_for_tapscript", "r is Ok ==> tap_pk_ok(r->Ok_0.internal_key)", ("C20",)),
-              ]))
+              ]))[0])
 
 
 # =====================================================================================================================================
@@ -782,6 +820,32 @@ pub proof fn lemma_fmt_open_next(s: Shape, cc: Seq<u8>, i: int)
 }
 """
 
+ROUNDTRIP = r"""
+// ================================================================================================================================
+// ROUND TRIP corollaries (spec level): what the clauses of the printer and of the parser say together
+// ================================================================================================================================
+// parse(print(tree)): the printer writes ntn(denote(ds), ..) (fmt_helper.written_is_the_bip386_notation_of_the_denoted_tree); IF the expression tree built from that text
+// spells denote(ds) (ASSUMED: expression::Tree::from_str), the parser's depth list (Tr::from_tree.depths_are_the_depths_of_the_shape_spelled) is ds again
+pub proof fn parse_of_print_keeps_depths_and_shape(ds: Seq<nat>, parsed: Seq<nat>)
+    requires wf_depths(ds), parsed == depths_of(denote(ds), 0),
+    ensures parsed == ds, wf_depths(parsed), denote(parsed) == denote(ds),
+{
+    roundtrip_depths_of_denote(ds);
+}
+// print(parse(text)): a text that spells s is parsed to a tree that denotes s (parsed_tree_is_well_formed), which is printed as the notation of s
+pub proof fn print_of_parse_is_the_notation_of_the_shape_spelled(s: Shape, parsed: Seq<nat>, k: int, lt: spec_fn(int) -> Tok)
+    requires sh_height(s) <= 128, parsed == depths_of(s, 0),
+    ensures ntn(denote(parsed), k, lt) == ntn(s, k, lt),
+{
+    roundtrip_denote_depths_of(s);
+}
+// translate, then print: same punctuation, leaf j printed from the translation of leaf j (same_shape + leaf_i_is_the_translation_of_leaf_i)
+pub proof fn translated_tree_prints_the_same_shape<P: MiniscriptKey, Q: MiniscriptKey>(a: TapTree<P>, b: TapTree<Q>, pt: spec_fn(Miniscript<Q, Tap>) -> Tok)
+    requires tap_depths(a) == tap_depths(b),
+    ensures tree_ntn(b, pt) == ntn(denote(tap_depths(a)), 0, leaf_toks(b, pt)),
+{}
+"""
+
 TAPTREE_ITEM = "impl:TapTreeIterItem<'tr, Pk>/fn:"
 
 
@@ -867,6 +931,48 @@ def annotate_fmt_helper(text):
     return S._apply_edits(text, edits)
 
 
+
+def param_names(repo, rel, anchor):
+    """names of the non-self parameters of the real function, in order (contracts are written with canonical names and renamed to the real ones)"""
+    text = drop_vis(strip_docs(repo.at(rel, anchor).text)).strip("\n")
+    head, ret, where, body = split_fn(text)
+    m = re.search(r"\bfn\s+\w+", head)
+    i = head.index("(", m.end())
+    # generics may contain parentheses (Fn bounds): take the LAST top-level parenthesis group
+    depth, start = 0, None
+    for k in range(len(head) - 1, -1, -1):
+        if head[k] == ")":
+            depth += 1
+        elif head[k] == "(":
+            depth -= 1
+            if depth == 0:
+                start = k
+                break
+    names = []
+    for a in _split_args(head[start + 1:len(head) - 1]):
+        if re.match(r"^&?\s*(?:'\w+\s+)?(?:mut\s+)?self\b", a):
+            continue
+        mm = re.match(r"^(?:mut\s+)?(\w+)\s*:", a)
+        if not mm:
+            raise Undecided("parameter pattern %r of %s not modelled" % (a, anchor))
+        names.append(mm.group(1))
+    return names
+
+
+def with_real_names(repo, rel, anchor, canon, contract):
+    """the contract is written with the canonical parameter names `canon`; rename to the names the real text uses (a renamed parameter is a benign edit)"""
+    real = param_names(repo, rel, anchor)
+    if len(real) != len(canon):
+        raise Undecided("%s: %d parameters expected, %d found" % (anchor, len(canon), len(real)))
+    mp = dict(zip(canon, real))
+
+    def ren(s):
+        return re.sub(r"\b(%s)\b" % "|".join(re.escape(c) for c in canon), lambda m: mp[m.group(1)], s)
+    for c in contract.requires + contract.ensures:
+        c.text = ren(c.text)
+    return contract, ren
+
+
 def own_canary(vf, fq, generics, params, requires, where=""):
     """reachability canary written out by hand (vlib's generator strips the `mut` of `&mut fmt::Formatter` parameters): must FAIL"""
     cname = "canary_" + re.sub(r"\W+", "_", fq)
@@ -884,19 +990,19 @@ def emit_fmt(vf):
              "appends the implementor's token sequence -- abstract for key types, one uninterpreted token for a Miniscript (impls external_body), PROVED for TapTree and Tr")
     vf.trust("const TAPROOT_CONTROL_MAX_NODE_COUNT = 128", "bitcoin::taproot constant (BIP341)")
     vf.spec_obligation("oracle::bip386_tree_notation_and_printer_states", S._novis(FMT_SPEC), P1510)
+    vf.spec_obligation("oracle::round_trip_corollaries", S._novis(ROUNDTRIP), P1510)
     with vf.block("impl<'tr, Pk: MiniscriptKey> TapTreeIterItem<'tr, Pk>"):
         vf.fn(TAPTREE, TAPTREE_ITEM + "miniscript", qual="TapTreeIterItem", assumed=True, contract=Contract(ensures=[C("field", "r == self.node", ())]))
         vf.fn(TAPTREE, TAPTREE_ITEM + "depth", qual="TapTreeIterItem", assumed=True, contract=Contract(ensures=[C("field", "r == self.depth", ())]))
     vf.trust("TapTreeIterItem::{miniscript, depth} (external_body, contract only)", "one-line accessors; the same clauses are proved in units c15_spendinfo / c20_iters")
-    vf.fn(TAPTREE, "fn:fmt_helper", qual=None, props=("C15", "C10", "C11"), rewrites=[annotate_fmt_helper],
-          contract=Contract(requires=["tap_tree_wf(*view)", "printer_prints(fmt_ms, tt_pt)"], canary=False, ensures=[
-              C("written_is_the_bip386_notation_of_the_denoted_tree", "r is Ok ==> final(f).log@ == old(f).log@ + tree_ntn(*view, tt_pt)", P1510),
-              C("formatter_flags_untouched", "r is Ok ==> final(f).alt == old(f).alt", ()),
-          ]))
+    con, ren = with_real_names(vf.repo, TAPTREE, "fn:fmt_helper", ["view", "f", "fmt_ms"], Contract(requires=["tap_tree_wf(*view)", "printer_prints(fmt_ms, tt_pt)"], canary=False, ensures=[
+        C("written_is_the_bip386_notation_of_the_denoted_tree", "r is Ok ==> final(f).log@ == old(f).log@ + tree_ntn(*view, tt_pt)", P1510),
+        C("formatter_flags_untouched", "r is Ok ==> final(f).alt == old(f).alt", ()),
+    ]))
+    vf.fn(TAPTREE, "fn:fmt_helper", qual=None, props=("C15", "C10", "C11"), rewrites=[annotate_fmt_helper], contract=con)
     register_named_invariants(vf, "fmt_helper")
     own_canary(vf, "fmt_helper", "<Pk: MiniscriptKey, F: FnMut(&mut fmt::Formatter, &Miniscript<Pk, Tap>) -> fmt::Result>",
-               "view: &TapTree<Pk>, fmt_ms: F, tt_pt: spec_fn(Miniscript<Pk, Tap>) -> Tok", ["tap_tree_wf(*view)", "printer_prints(fmt_ms, tt_pt)"])
-
+               ren("view: &TapTree<Pk>, fmt_ms: F, tt_pt: spec_fn(Miniscript<Pk, Tap>) -> Tok"), [ren("tap_tree_wf(*view)"), ren("printer_prints(fmt_ms, tt_pt)")])
 
 
 # ----------------------------------------------------------------------------------------------------------------------------------
@@ -1043,8 +1149,8 @@ def emit_display(vf):
             vf.raw("    spec fn %s(&self) -> bool { tap_tree_wf(*self) }\n    spec fn %s -> Seq<Tok> { tree_ntn(*self, %s) }\n" % (pre, toks, pt))
             vf.fn(TAPTREE, "impl:fmt::%s for TapTree<Pk>/fn:fmt" % trait, qual="TapTree as %s" % trait, props=("C15", "C10", "C11"),
                   rewrites=[write_macro(), leaf_printer_closure(pt)],
-                  contract=Contract(ensures=[
-                      C("written_is_the_bip386_notation_with_the_%s_form_of_the_leaves" % trait.lower(), "r is Ok ==> final(f).log@ == old(f).log@ + tree_ntn(*self, %s)" % pt, P1510)]))
+                  contract=with_real_names(vf.repo, TAPTREE, "impl:fmt::%s for TapTree<Pk>/fn:fmt" % trait, ["f"], Contract(ensures=[
+                      C("written_is_the_bip386_notation_with_the_%s_form_of_the_leaves" % trait.lower(), "r is Ok ==> final(f).log@ == old(f).log@ + tree_ntn(*self, %s)" % pt, P1510)]))[0])
     # ---- checksum::Formatter (the writer Display for Tr goes through) ---------------------------------------------------------------------
     vf.item(CHECKSUM, "struct:Formatter", rewrites=R7_CK)
     vf.raw(CHECKSUM_STUBS)
@@ -1054,12 +1160,12 @@ def emit_display(vf):
     FIN = "*final(final(self).fmt) == *final(old(self).fmt)"
     with vf.block("impl<'f> Formatter<'f>"):
         vf.fn(CHECKSUM, "impl:Formatter<'f, 'a>/fn:new", qual="checksum::Formatter", props=("C10", "C11"), rewrites=R7_CK,
-              contract=Contract(ensures=[C("wraps_the_formatter", "*r.fmt == *old(f) && *final(r.fmt) == *final(f)", ("C10",))]))
+              contract=with_real_names(vf.repo, CHECKSUM, "impl:Formatter<'f, 'a>/fn:new", ["f"], Contract(ensures=[C("wraps_the_formatter", "*r.fmt == *old(f) && *final(r.fmt) == *final(f)", ("C10",))]))[0])
         vf.fn(CHECKSUM, "impl:fmt::Write for Formatter<'_, '_>/fn:write_str", qual="checksum::Formatter", props=("C10", "C11"),
               rewrites=[sub("R10-closure-type", r"\.map_err\(\|_\|\s*fmt::Error\)", ".map_err(|_e: ChecksumError| -> (o: fmt::Error) { fmt::Error })")],
-              contract=Contract(ensures=[
+              contract=with_real_names(vf.repo, CHECKSUM, "impl:fmt::Write for Formatter<'_, '_>/fn:write_str", ["s"], Contract(ensures=[
                   C("forwards_to_the_wrapped_formatter", "r is Ok ==> final(self).fmt.log@ == old(self).fmt.log@.push(Tok::Str(s@)) && final(self).fmt.alt == old(self).fmt.alt", ("C10",)),
-                  C("same_wrapped_formatter", FIN, ())]))
+                  C("same_wrapped_formatter", FIN, ())]))[0])
         vf.fn(CHECKSUM, "impl:Formatter<'f, 'a>/fn:write_checksum_if_not_alt", qual="checksum::Formatter", props=("C10", "C11"),
               contract=Contract(ensures=[
                   C("checksum_unless_alternate", "r is Ok ==> final(self).fmt.log@ == (if old(self).fmt.alt { old(self).fmt.log@ } else { old(self).fmt.log@.push(Tok::Checksum) }) "
@@ -1072,15 +1178,15 @@ def emit_display(vf):
                "    spec fn disp_toks(&self, alt: bool) -> Seq<Tok> { tr_ntn(*self, self.internal_key.disp_toks(false), disp_tok()) + (if alt { Seq::empty() } else { seq![Tok::Checksum] }) }\n")
         vf.fn(TRMOD, "impl:fmt::Display for Tr<Pk>/fn:fmt", qual="Tr as Display", props=("C15", "C10", "C11"),
               rewrites=[sub("R7-use", r"\buse fmt::Write;\s*", ""), write_macro(), sub("R7-path", r"\bchecksum::Formatter\b", "Formatter")],
-              contract=Contract(ensures=[
+              contract=with_real_names(vf.repo, TRMOD, "impl:fmt::Display for Tr<Pk>/fn:fmt", ["f"], Contract(ensures=[
                   C("written_is_tr_key_comma_tree_checksum", "r is Ok ==> final(f).log@ =~= old(f).log@ + tr_ntn(*self, self.internal_key.disp_toks(false), disp_tok()) "
-                    "+ (if old(f).alt { Seq::<Tok>::empty() } else { seq![Tok::Checksum] })", P1510)]))
+                    "+ (if old(f).alt { Seq::<Tok>::empty() } else { seq![Tok::Checksum] })", P1510)]))[0])
     with vf.block("impl<Pk: MiniscriptKey + fmt::Debug> fmt::Debug for Tr<Pk>"):
         vf.raw("    spec fn dbg_pre(&self) -> bool { tr_tree_wf(*self) && self.internal_key.dbg_pre() }\n"
                "    spec fn dbg_toks(&self) -> Seq<Tok> { tr_ntn(*self, self.internal_key.dbg_toks(), dbg_tok()) }\n")
         vf.fn(TRMOD, "impl:fmt::Debug for Tr<Pk>/fn:fmt", qual="Tr as Debug", props=("C15", "C10", "C11"), rewrites=[write_macro()],
-              contract=Contract(ensures=[
-                  C("written_is_tr_key_comma_tree", "r is Ok ==> final(f).log@ =~= old(f).log@ + tr_ntn(*self, self.internal_key.dbg_toks(), dbg_tok())", P1510)]))
+              contract=with_real_names(vf.repo, TRMOD, "impl:fmt::Debug for Tr<Pk>/fn:fmt", ["f"], Contract(ensures=[
+                  C("written_is_tr_key_comma_tree", "r is Ok ==> final(f).log@ =~= old(f).log@ + tr_ntn(*self, self.internal_key.dbg_toks(), dbg_tok())", P1510)]))[0])
 
 
 
@@ -1108,7 +1214,7 @@ impl RangeInclusive {
     { &self.end }
     pub fn next(&mut self) -> (r: Option<usize>)
         ensures final(self).hi() == old(self).hi(),
-                old(self).lo() > old(self).hi() ==> r is None && final(self).lo() > final(self).hi(),
+                old(self).lo() > old(self).hi() ==> r is None && final(self).lo() == old(self).lo(),
                 old(self).lo() <= old(self).hi() ==> r == Some(old(self).lo() as usize) && final(self).lo() == old(self).lo() + 1,
     {
         if self.is_empty() { return None; }
@@ -1124,6 +1230,7 @@ PARSE_ERRORS = r"""
 // ---- error types: payloads are only moved around (reduced to the variants the extracted text constructs) -----------------------
 pub struct ValidationError { opaque: u8 }
 pub struct ValidationParams { opaque: u8 }
+pub struct ParseNumError { opaque: u8 }
 pub enum ParseTreeError { IncorrectName { actual: String, expected: &'static str }, Other }
 pub enum ParseError { Tree(ParseTreeError), Other }
 pub enum Error { Parse(ParseError), Validation(ValidationError), TapTreeDepthError(TapTreeDepthError), Other }
@@ -1131,7 +1238,7 @@ pub enum Error { Parse(ParseError), Validation(ValidationError), TapTreeDepthErr
 impl From<TapTreeDepthError> for Error { fn from(e: TapTreeDepthError) -> Self { Self::TapTreeDepthError(e) } }
 impl vstd::std_specs::convert::FromSpecImpl<TapTreeDepthError> for Error {
     open spec fn obeys_from_spec() -> bool { true }
-    open spec fn from_spec(e: TapTreeDepthError) -> Self { Error::TapTreeDepthError(e) }
+    closed spec fn from_spec(e: TapTreeDepthError) -> Self { Error::TapTreeDepthError(e) }
 }
 #[verifier::external_body] pub fn str_to_owned_(s: &str) -> String { unimplemented!() }
 #[verifier::external_body] pub fn str_is_empty_(s: &str) -> (r: bool) ensures r == (s@.len() == 0) { unimplemented!() }
@@ -1266,9 +1373,11 @@ pub proof fn lemma_spells_at(ns: Seq<TreeNode>, x: int, s: Shape, bits: Seq<bool
     if bits.len() > 0 {
         let pb = bits.drop_last(); let p = xnode(ns, x, pb);
         lemma_spells_at(ns, x, s, pb);
+        assert(wf_node(ns, p));
+        assert(wf_node(ns, p + 1));
         two_children(ns, p);
         lemma_rmd_nested(ns, p, p + 1);
-        assert(wf_node(ns, p + 1));
+        lemma_rmd_nested(ns, p, rmd(ns, p + 1) + 1);
     }
 }
 // where the walk stands after a finished subtree (skip_descendants / the end of a leaf): right behind its block = at the node the carry leads to
@@ -1344,21 +1453,39 @@ pub proof fn spells_at_most_one_shape(ns: Seq<TreeNode>, x: int, s1: Shape, s2: 
 
 // ---- TapTreeBuilder: the cursor as a path (derived from k15_taptree's contract: level d is `done` when the left subtree hanging at depth d is finished) ----
 pub uninterp spec fn bit_of(word: u128, i: int) -> bool;        // bit i of the word
+#[verifier::external_body]
+pub proof fn axiom_zero_word_has_no_bits()
+    ensures forall|i: int| !#[trigger] bit_of(0u128, i),
+{}
+// the second child of a node (what the second `next()` of its child iterator yields): the TREE argument of tr(KEY,TREE)
+pub open spec fn xtree_index(ns: Seq<TreeNode>, i: int) -> int { child_seq(ns, i)[1] }
+// a node with children has a descendant
+pub proof fn lemma_has_descendant(ns: Seq<TreeNode>, i: int)
+    requires wf_tree(ns), 0 <= i < ns.len(), nch(ns, i) >= 1,
+    ensures i + 1 <= rmd(ns, i),
+{
+    assert(wf_node(ns, i));
+    let l = ns[i].last_child_idx->Some_0 as int;
+    assert(wf_node(ns, l));
+}
+// k15_taptree `done(heights, c128, d)`: levels 1..=127 in the bitmap, level 128 in the bool
+pub open spec fn lvl_done(heights: u128, c128: bool, d: int) -> bool { if d == 128 { c128 } else { bit_of(heights, d) } }
 impl<Pk: MiniscriptKey> TapTreeBuilder<Pk> {
-    pub open spec fn done(&self, d: int) -> bool { if d == 128 { self.complete_128 } else { bit_of(self.complete_heights, d) } }
     // k15_taptree `wf`: cursor within 0..=128, no flag above the cursor
-    pub open spec fn inv(&self) -> bool { self.current_height <= 128 && forall|d: int| self.current_height < d <= 128 ==> !#[trigger] self.done(d) }
+    pub open spec fn inv(&self) -> bool {
+        self.current_height <= 128 && forall|d: int| self.current_height < d <= 128 ==> !#[trigger] lvl_done(self.complete_heights, self.complete_128, d)
+    }
     // the path from the root to the node the builder expects next: one turn per level, right = the left subtree at that level is finished
-    pub open spec fn path(&self) -> Seq<bool> { Seq::new(self.current_height as nat, |j: int| self.done(j + 1)) }
+    pub open spec fn path(&self) -> Seq<bool> { Seq::new(self.current_height as nat, |j: int| lvl_done(self.complete_heights, self.complete_128, j + 1)) }
     pub open spec fn depths(&self) -> Seq<nat> { Seq::new(self.depths_leaves@.len(), |j: int| self.depths_leaves@[j].0 as nat) }
 }
 // the clause families proved by Kani (harnesses builder_push_leaf_h*) are exactly the Seq form consumed here: path' == carry(path)
 pub proof fn builder_clauses_are_the_seq_contract(d0: spec_fn(int) -> bool, d1: spec_fn(int) -> bool, h: int, h2: int)
     requires 0 <= h2 <= h <= 128,                                              // push_leaf.cursor_never_descends
              h2 == 0 || !d0(h2),                                               // push_leaf.stops_at_unfinished_left
-             forall|i: int| h2 < i <= h ==> d0(i),                             // push_leaf.climbs_only_over_finished_left   (clears_climbed_levels: those levels are above the new cursor)
+             forall|i: int| h2 < i <= h ==> #[trigger] d0(i),                             // push_leaf.climbs_only_over_finished_left   (clears_climbed_levels: those levels are above the new cursor)
              h2 > 0 ==> d1(h2),                                                // push_leaf.marks_left_finished
-             forall|i: int| 0 < i < h2 ==> d1(i) == d0(i),                     // push_leaf.other_levels_unchanged
+             forall|i: int| 0 < i < h2 ==> #[trigger] d1(i) == d0(i),                     // push_leaf.other_levels_unchanged
     ensures Seq::new(h2 as nat, |j: int| d1(j + 1)) == carry(Seq::new(h as nat, |j: int| d0(j + 1))),
     decreases h - h2,
 {
@@ -1416,10 +1543,6 @@ pub proof fn lemma_walk_leaf(ns: Seq<TreeNode>, x: int, s: Shape, path: Seq<bool
 }
 """
 
-def _item_closure_self(text):
-    return text
-
-
 EXPECTED_PUSH_LEAF_SIG = "fn push_leaf<A: Into<Arc<Miniscript<Pk, Tap>>>>(&mut self, ms: A)"
 
 
@@ -1445,54 +1568,74 @@ def annotate_from_tree(text):
     cw = match_close(text, ow)
     d = dict(ROOT=ROOT, B=B, IT=IT, TT=TT, NODE=NODE)
     NS, X = "%(TT)s.nodes@" % d, "%(TT)s.index as int" % d
-    d.update(NS=NS, X=X)
-    G = "spells(%(NS)s, %(X)s, tt_s) ==> " % d
+    d.update(NS=NS, X=X, LO="%(IT)s.inner.lo()" % d, HI="%(IT)s.inner.hi()" % d, DL="%(B)s.depths_leaves@" % d)
+    d["OPEN"] = "(%(DL)s.len() == 0 || %(B)s.path().len() > 0)" % d
+    d["DONE"] = "(%(DL)s.len() > 0 && %(B)s.path().len() == 0)" % d
+    d["G"] = "spells(%(NS)s, %(X)s, tt_s) ==> " % d
     edits = []
     head, ret, where, body = split_fn(text)
-    edits.append((len(text) - len(body) + 1, "\n        let ghost tt_s: Shape = arbitrary();      // ANY shape: every clause below is stated under `the sub-tree spells tt_s`"))
+    edits.append((len(text) - len(body) + 1, "\n        proof { assert(wf_node(%(ROOT)s.nodes@, %(ROOT)s.index as int)); }" % d))
+    # the shape the TREE argument spells (if any): chosen once the argument is at hand
+    edits.append((mb.start(), ("let ghost tt_s: Shape = choose|s: Shape| spells(%(NS)s, %(X)s, s);\n"
+                               "        proof { assert(%(NS)s == %(ROOT)s.nodes@ && %(X)s == xtree_index(%(ROOT)s.nodes@, %(ROOT)s.index as int)); }\n        ") % d))
     edits.append((mi.end(), ("\n        proof { assert(wf_node(%(NS)s, %(X)s)); assert(%(B)s.path() =~= Seq::<bool>::empty()); }") % d))
     inv = ("\n            invariant\n"
-           "                %(TT)s.valid(), %(IT)s.nodes == %(TT)s.nodes, %(IT)s.inner.hi() == rmd(%(NS)s, %(X)s), %(X)s <= %(IT)s.inner.lo(),\n"
+           "                %(TT)s.valid(), %(IT)s.nodes == %(TT)s.nodes, %(HI)s == rmd(%(NS)s, %(X)s), %(HI)s < %(NS)s.len(), %(X)s <= %(LO)s,\n"
            "                %(B)s.inv(), //@inv builder_cursor_stays_within_128_levels [C15,C11]\n"
-           "                " + G + "((%(B)s.depths_leaves@.len() == 0 || %(B)s.path().len() > 0) ==> walk_open(%(NS)s, %(X)s, tt_s, %(B)s.path(), %(IT)s.inner.lo(), %(B)s.depths_leaves@.len() as int)), //@inv builder_path_leads_to_the_node_that_comes_next [C15,C10]\n"
-           "                " + G + "((%(B)s.depths_leaves@.len() == 0 || %(B)s.path().len() > 0) ==> %(IT)s.inner.lo() <= %(IT)s.inner.hi()), //@inv an_unfinished_tree_has_a_next_node [C15,C10]\n"
-           "                " + G + "((%(B)s.depths_leaves@.len() > 0 && %(B)s.path().len() == 0) ==> walk_done(%(NS)s, %(X)s, tt_s, %(IT)s.inner.lo(), %(B)s.depths_leaves@.len() as int)), //@inv walk_ends_with_the_last_leaf [C15,C10]\n"
-           "                " + G + "walk_pushed(%(NS)s, %(X)s, tt_s, %(B)s.depths_leaves@), //@inv every_leaf_so_far_pushed_at_the_depth_of_its_node_in_preorder [C15,C10]\n"
-           "            decreases %(IT)s.inner.hi() + 1 - %(IT)s.inner.lo()\n        ") % d
+           "                %(DL)s.len() == 0 ==> %(LO)s <= %(HI)s, //@inv a_leaf_is_pushed_before_the_walk_ends [C11]\n"
+           "                forall|j: int| 0 <= j < %(DL)s.len() ==> (#[trigger] %(DL)s[j]).0 <= 128, //@inv every_recorded_depth_is_at_most_128 [C15,C11]\n"
+           "                %(G)s(%(OPEN)s ==> walk_open(%(NS)s, %(X)s, tt_s, %(B)s.path(), %(LO)s, %(DL)s.len() as int)), //@inv builder_path_leads_to_the_node_that_comes_next [C15,C10]\n"
+           "                %(G)s(%(OPEN)s ==> %(LO)s <= %(HI)s), //@inv an_unfinished_tree_has_a_next_node [C15,C10]\n"
+           "                %(G)s(%(DONE)s ==> walk_done(%(NS)s, %(X)s, tt_s, %(LO)s, %(DL)s.len() as int)), //@inv walk_ends_with_the_last_leaf [C15,C10]\n"
+           "                %(G)swalk_pushed(%(NS)s, %(X)s, tt_s, %(DL)s), //@inv every_leaf_so_far_pushed_at_the_depth_of_its_node_in_preorder [C15,C10]\n"
+           "            ensures\n"
+           "                %(DL)s.len() > 0, //@inv walk_ended_after_a_leaf [C11]\n"
+           "                forall|j: int| 0 <= j < %(DL)s.len() ==> (#[trigger] %(DL)s[j]).0 <= 128,\n"
+           "                %(G)s%(DONE)s && %(DL)s.len() == sh_leaves(tt_s), //@inv walk_ended_with_the_last_leaf_of_the_tree [C15,C10]\n"
+           "            decreases %(HI)s + 1 - %(LO)s\n        ") % d
     edits.append((ow, inv))
-    edits.append((ow + 1, ("\n            let ghost tt_p0 = %(B)s.path(); let ghost tt_dl0 = %(B)s.depths_leaves@; let ghost tt_lo0 = %(NODE)s.index as int;\n"
+    edits.append((ow + 1, ("\n            let ghost tt_p0 = %(B)s.path(); let ghost tt_dl0 = %(DL)s; let ghost tt_lo0 = %(NODE)s.index as int;\n"
                            "            proof {\n"
                            "                lemma_rmd_nested(%(NS)s, %(X)s, tt_lo0);\n"
-                           "                if spells(%(NS)s, %(X)s, tt_s) && (tt_dl0.len() == 0 || tt_p0.len() > 0) {\n"
+                           "                if spells(%(NS)s, %(X)s, tt_s) {\n"
                            "                    if %(NODE)s.nodes@[tt_lo0].parens == Parens::Curly { lemma_walk_inner(%(NS)s, %(X)s, tt_s, tt_p0, tt_lo0, tt_dl0.len() as int); }\n"
                            "                    else { lemma_walk_leaf(%(NS)s, %(X)s, tt_s, tt_p0, tt_lo0, tt_dl0.len() as int); }\n"
                            "                }\n"
                            "            }") % d))
-    # after push_inner_node
     mpi = _need(re.search(r"%(B)s\.push_inner_node\(\)\s*\?\s*;" % d, text[ow:cw]), "`BUILDER.push_inner_node()?;`")
-    edits.append((ow + mpi.end(), "\n                proof { assert(%(B)s.depths_leaves@ == tt_dl0); }" % d))
+    edits.append((ow + mpi.end(), "\n                proof { if nch(%(NS)s, tt_lo0) >= 1 { lemma_has_descendant(%(NS)s, tt_lo0); } }" % d))
     mpl = _need(re.search(r"%(B)s\.push_leaf\(\s*(\w+)\s*\)\s*;" % d, text[ow:cw]), "`BUILDER.push_leaf(SCRIPT);`")
-    msk = _need(re.search(r"%(IT)s\.skip_descendants\(\)\s*;" % d, text[ow:cw]), "`ITER.skip_descendants();`")
-    if msk.start() < mpl.start():
-        raise Undecided("Tr::from_tree: skip_descendants before push_leaf (shape not modelled)")
-    edits.append((ow + msk.end(), ("\n                proof {\n"
-                                   "                    assert(%(B)s.depths_leaves@ =~= tt_dl0.push(%(B)s.depths_leaves@.last()));\n"
-                                   "                    if spells(%(NS)s, %(X)s, tt_s) {\n"
-                                   "                        assert forall|j: int| 0 <= j < %(B)s.depths_leaves@.len() implies (#[trigger] %(B)s.depths_leaves@[j]).0 == depths_of(tt_s, 0)[j] by { if j < tt_dl0.len() { assert(%(B)s.depths_leaves@[j] == tt_dl0[j]); } }\n"
-                                   "                        assert forall|j: int| 0 <= j < %(B)s.depths_leaves@.len() implies spec_ms_from_tree::<Pk, Tap>(%(NS)s, leaf_nodes(%(NS)s, %(X)s, tt_s)[j]) == Ok::<Miniscript<Pk, Tap>, Error>(*(#[trigger] %(B)s.depths_leaves@[j]).1) by { if j < tt_dl0.len() { assert(%(B)s.depths_leaves@[j] == tt_dl0[j]); } }\n"
-                                   "                    }\n"
-                                   "                }") % d))
-    # after the loop: the result
-    mfin = _need(re.search(r"%(B)s\.finalize\(\)" % d, text[cw:]), "`BUILDER.finalize()`")
+    msk = re.search(r"%(IT)s\.skip_descendants\(\)\s*;" % d, text[ow:cw])
+    ghost_leaf = ("\n                proof {\n"
+                  "                    assert forall|j: int| 0 <= j < %(DL)s.len() implies (#[trigger] %(DL)s[j]).0 <= 128 by { if j < tt_dl0.len() { assert(%(DL)s[j] == tt_dl0[j]); } }\n"
+                  "                    if spells(%(NS)s, %(X)s, tt_s) {\n"
+                  "                        assert forall|j: int| 0 <= j < %(DL)s.len() implies (#[trigger] %(DL)s[j]).0 == depths_of(tt_s, 0)[j] by { if j < tt_dl0.len() { assert(%(DL)s[j] == tt_dl0[j]); } }\n"
+                  "                        assert forall|j: int| 0 <= j < %(DL)s.len() implies spec_ms_from_tree::<Pk, Tap>(%(NS)s, leaf_nodes(%(NS)s, %(X)s, tt_s)[j]) == Ok::<Miniscript<Pk, Tap>, Error>(*(#[trigger] %(DL)s[j]).1) by { if j < tt_dl0.len() { assert(%(DL)s[j] == tt_dl0[j]); } }\n"
+                  "                    }\n"
+                  "                }") % d
+    edits.append((ow + max(mpl.end(), msk.end() if msk else 0), ghost_leaf))
+    # after the loop: the result, for EVERY shape the argument spells (there is at most one)
     edits.append((cw + 1, ("\n        proof {\n"
-                           "            if spells(%(NS)s, %(X)s, tt_s) {\n"
-                           "                if %(B)s.depths_leaves@.len() == 0 || %(B)s.path().len() > 0 { assert(false); }\n"
-                           "                lemma_sh_counts(tt_s, 0);\n"
-                           "                assert(%(B)s.depths() =~= depths_of(tt_s, 0));\n"
-                           "                lemma_listing_wf(%(B)s.depths(), tt_s);\n"
+                           "            assert forall|s: Shape| #[trigger] spells(%(NS)s, %(X)s, s) implies depths_of(s, 0) == %(B)s.depths() && walk_pushed(%(NS)s, %(X)s, s, %(DL)s)\n"
+                           "                    && %(DL)s.len() == sh_leaves(s) && is_listing_of(%(B)s.depths(), s) && denote(%(B)s.depths()) == s by {\n"
+                           "                spells_at_most_one_shape(%(NS)s, %(X)s, s, tt_s);\n"
+                           "                lemma_sh_counts(s, 0);\n"
+                           "                assert(%(B)s.depths() =~= depths_of(s, 0));\n"
+                           "                lemma_listing_wf(%(B)s.depths(), s);\n"
                            "            }\n"
                            "        }") % d))
     return S._apply_edits(text, edits)
+
+
+def emit_expression_types(vf):
+    vf.item(TAPTREE, "struct:TapTreeDepthError", rewrites=[STRIP_DERIVE, sub("R1-attr", r"#\[non_exhaustive\]\s*", "", required=False)])
+    vf.item(EXPR, "enum:Parens", rewrites=[sub("derive", r"#\[derive\([^)]*\)\]\s*", "#[derive(Copy, Clone, PartialEq, Eq)]\n")])
+    vf.item(EXPR, "struct:TreeNode", rewrites=[C11.STRIP_DERIVE])
+    vf.item(EXPR, "struct:TreeIterItem", rewrites=[C11.COPY_DERIVE])
+    vf.item(EXPR, "struct:DirectChildIterator")
+    vf.raw(PARSE_ERRORS)
+    vf.trust("ValidationError / ValidationParams (opaque), enums ParseTreeError / ParseError / Error reduced to the variants constructed, From<TapTreeDepthError> for Error + FromSpecImpl glue, "
+             "str_to_owned_ (arbitrary) / str_is_empty_ (len == 0), PartialEqSpecImpl for Parens (derived PartialEq is structural)", "error payloads are only moved around; std string helpers")
 
 
 def emit_parse(vf, repo):
@@ -1505,14 +1648,6 @@ def emit_parse(vf, repo):
         items = [kc for _, kc in sorted(f["clauses"].items())]
         return Contract(requires=[c for k, c in items if k == "requires"], ensures=[c for k, c in items if k == "ensures"], canary=False)
 
-    vf.item(TAPTREE, "struct:TapTreeDepthError", rewrites=[STRIP_DERIVE, sub("R1-attr", r"#\[non_exhaustive\]\s*", "", required=False)])
-    vf.item(EXPR, "enum:Parens", rewrites=[sub("derive", r"#\[derive\([^)]*\)\]\s*", "#[derive(Copy, Clone, PartialEq, Eq)]\n")])
-    vf.item(EXPR, "struct:TreeNode", rewrites=[C11.STRIP_DERIVE])
-    vf.item(EXPR, "struct:TreeIterItem", rewrites=[C11.COPY_DERIVE])
-    vf.item(EXPR, "struct:DirectChildIterator")
-    vf.raw(PARSE_ERRORS)
-    vf.trust("ValidationError / ValidationParams (opaque), enums ParseTreeError / ParseError / Error reduced to the variants constructed, From<TapTreeDepthError> for Error + FromSpecImpl glue, "
-             "str_to_owned_ (arbitrary) / str_is_empty_ (len == 0), PartialEqSpecImpl for Parens (derived PartialEq is structural)", "error payloads are only moved around; std string helpers")
     vf.raw(C11.MODEL)
     vf.trust("wf_tree (spec): ASSUMED shape of the TreeNode array behind every TreeIterItem (precondition `valid()`), text of units/c11_policy_parse.py MODEL",
              "what expression::Tree::from_str builds (pre-order array, parent_idx / n_children / last_child_idx consistent, blocks of descendants contiguous); not verified")
@@ -1539,25 +1674,26 @@ def emit_parse(vf, repo):
         vf.fn(EXPR, "impl:TreeIterItem<'s>/fn:parens", qual="TreeIterItem", props=("C10", "C11"),
               contract=Contract(requires=["self.valid()"], ensures=[C("def", "r == %s[%s].parens" % (NS, I), ("C10",))]))
         vf.fn(EXPR, "impl:TreeIterItem<'s>/fn:pre_order_iter", qual="TreeIterItem", props=("C10", "C11"),
-              rewrites=[sub("R7-range", r"(self\.index)\s*\.\.=\s*(self\.rightmost_descendant_idx\(\))", r"RangeInclusive::new(\1, \2)")],
+              rewrites=[sub("R7-range", r"(\binner\s*:\s*)([^,{};]+?)\s*\.\.=\s*([^,{};]+?)(\s*[,}])", r"\1RangeInclusive::new(\2, \3)\4")],
               contract=Contract(requires=["self.valid()"], ensures=[
                   C("covers_the_node_and_its_descendants", "r.nodes == self.nodes && r.inner.lo() == self.index && r.inner.hi() == rmd(%s, %s)" % (NS, I), ("C10",))]))
     with vf.block("impl<'s> PreOrderIter<'s>"):
         vf.fn(EXPR, "impl:Iterator for PreOrderIter<'s>/fn:next", qual="PreOrderIter", props=("C10", "C11"),
               rewrites=[sub("R7-assoc", r"Option<Self::Item>", "Option<TreeIterItem<'s>>"), C11.ITEM_CLOSURE],
               contract=Contract(ensures=[
-                  C("yields_the_nodes_in_array_order", "old(self).inner.lo() <= old(self).inner.hi() ==> r matches Some(it) && it.nodes == old(self).nodes && it.index == old(self).inner.lo() "
+                  C("yields_the_nodes_in_array_order", "old(self).inner.lo() <= old(self).inner.hi() ==> r is Some && r->Some_0.nodes == old(self).nodes && r->Some_0.index == old(self).inner.lo() "
                     "&& final(self).inner.lo() == old(self).inner.lo() + 1", ("C10",)),
-                  C("none_when_exhausted", "old(self).inner.lo() > old(self).inner.hi() ==> r is None && final(self).inner.lo() > final(self).inner.hi()", ("C10",)),
+                  C("none_when_exhausted", "old(self).inner.lo() > old(self).inner.hi() ==> r is None && final(self).inner.lo() == old(self).inner.lo()", ("C10",)),
                   C("frame", "final(self).nodes == old(self).nodes && final(self).inner.hi() == old(self).inner.hi()", ())]))
         LI = "(old(self).inner.lo() - 1)"
         vf.fn(EXPR, "impl:PreOrderIter<'_>/fn:skip_descendants", qual="PreOrderIter", props=("C10", "C11"),
-              rewrites=[sub("R7-range", r"(skip_past \+ 1)\s*\.\.=\s*(\*self\.inner\.end\(\))", r"RangeInclusive::new(\1, \2)")],
+              rewrites=[sub("R7-range", r"(self\.inner\s*=\s*)([^;=]+?)\s*\.\.=\s*([^;]+?)\s*;", r"\1RangeInclusive::new(\2, \3);"),
+                        sub("R10", r"(let\s+(\w+)\s*=\s*TreeIterItem\s*\{[^}]*\}\s*;)", r"\1\n        proof { assert(wf_node(\2.nodes@, \2.index as int)); }")],
               contract=Contract(requires=["wf_tree(old(self).nodes@)", "old(self).inner.hi() < old(self).nodes@.len()", "old(self).inner.lo() >= 1",
                                           "old(self).inner.lo() <= old(self).inner.hi() ==> rmd(old(self).nodes@, old(self).inner.lo() - 1) <= old(self).inner.hi()"],
                                 ensures=[
                   C("continues_behind_the_descendants_of_the_last_node", "old(self).inner.lo() <= old(self).inner.hi() ==> final(self).inner.lo() == rmd(old(self).nodes@, %s) + 1" % LI, ("C10",)),
-                  C("nothing_to_skip_when_exhausted", "old(self).inner.lo() > old(self).inner.hi() ==> final(self).inner.lo() > final(self).inner.hi()", ("C10",)),
+                  C("nothing_to_skip_when_exhausted", "old(self).inner.lo() > old(self).inner.hi() ==> final(self).inner.lo() == old(self).inner.lo()", ("C10",)),
                   C("frame", "final(self).nodes == old(self).nodes && final(self).inner.hi() == old(self).inner.hi()", ())]))
     # ---- TapTreeBuilder ------------------------------------------------------------------------------------------------------------------
     vf.item(TAPTREE, "struct:TapTreeBuilder")
@@ -1566,13 +1702,14 @@ def emit_parse(vf, repo):
              "(R14 targets; Ok ==> / <==> the number of children is in the range), TreeIterItem::verify_terminal (arbitrary)",
              "text-level parsing and validation are units c10_notation / c12_from_tree's; verify_n_children's text: Ok iff `n_children.contains(&self.n_children())`")
     vf.spec_obligation("oracle::expression_tree_spells_a_shape_and_walk_states", S._novis(PARSE_SPEC), P1510)
-    vf.trust("uninterp bit_of(u128, int)", "bit i of complete_heights; the bit arithmetic of TapTreeBuilder::push_leaf is decided by Kani (k15_taptree), only its Seq-level contract is consumed")
+    vf.trust("uninterp bit_of(u128, int), axiom_zero_word_has_no_bits (external_body proof fn)", "bit i of complete_heights; the bit arithmetic of TapTreeBuilder::push_leaf is decided by Kani "
+             "(k15_taptree), only its Seq-level contract is consumed; the word 0 has no bit set (TapTreeBuilder::new; Kani harness builder_new proves the same invariant)")
     with vf.block("impl<Pk: MiniscriptKey> TapTreeBuilder<Pk>"):
         vf.fn(TAPTREE, "impl:TapTreeBuilder<Pk>/fn:new", qual="TapTreeBuilder", props=("C15", "C11"),
-              rewrites=[body_start("proof { assume_no_bits_in_zero(); }")],
+              rewrites=[body_start("proof { axiom_zero_word_has_no_bits(); }")],
               contract=Contract(ensures=[C("empty_at_the_root", "r.inv() && r.path() == Seq::<bool>::empty() && r.depths_leaves@.len() == 0")]))
         vf.fn(TAPTREE, "impl:TapTreeBuilder<Pk>/fn:push_inner_node", qual="TapTreeBuilder", props=("C15", "C11"),
-              rewrites=[sub("R10", r"(Ok\(\(\)\)\s*\}\s*)$", r"proof { assert(self.path() =~= old(self).path().push(false)); }\n        \1")],
+              rewrites=[sub("R10", r"(Ok\(\(\)\)\s*\}\s*)$", r"proof { assert(!lvl_done(self.complete_heights, self.complete_128, self.current_height as int)); assert(self.path() =~= old(self).path().push(false)); }\n        \1")],
               contract=Contract(requires=["old(self).inv()"], ensures=[
                   C("err_iff_depth_would_exceed_128", "r is Err <==> old(self).current_height + 1 > 128"),
                   C("descends_into_the_left_child", "r is Ok ==> final(self).inv() && final(self).path() == old(self).path().push(false)"),
@@ -1601,16 +1738,19 @@ def emit_parse(vf, repo):
                         sub("R7-std", r"(\w+)\.name\(\)\.to_owned\(\)", r"str_to_owned_(\1.name())", required=False),
                         sub("R7-std", r"(\w+)\.name\(\)\.is_empty\(\)", r"str_is_empty_(\1.name())", required=False),
                         annotate_from_tree],
-              contract=Contract(requires=["root.valid()"], ensures=[
+              contract=with_real_names(vf.repo, TRMOD, TR_FT, ["root"], Contract(requires=["root.valid()"], ensures=[
                   C("no_tree_argument_no_tree", "r is Ok && nch(root.nodes@, root.index as int) == 1 ==> r->Ok_0.tree is None", P1510),
-                  C("depths_are_the_depths_of_the_shape_spelled", "r is Ok && nch(root.nodes@, root.index as int) == 2 ==> forall|s: Shape| spells(root.nodes@, %s, s) ==> "
-                    "r->Ok_0.tree is Some && #[trigger] depths_of(s, 0) == tap_depths(r->Ok_0.tree->Some_0)" % XT, P1510),
-                  C("leaves_are_the_scripts_in_preorder", "r is Ok && nch(root.nodes@, root.index as int) == 2 ==> forall|s: Shape| spells(root.nodes@, %s, s) ==> "
-                    "r->Ok_0.tree is Some && walk_pushed(root.nodes@, %s, s, r->Ok_0.tree->Some_0.depths_leaves@) && r->Ok_0.tree->Some_0.depths_leaves@.len() == #[trigger] sh_leaves(s)" % (XT, XT), P1510),
+                  C("depths_are_the_depths_of_the_shape_spelled", "r is Ok && nch(root.nodes@, root.index as int) == 2 ==> forall|s: Shape| #[trigger] spells(root.nodes@, %s, s) ==> "
+                    "r->Ok_0.tree is Some && depths_of(s, 0) == tap_depths(r->Ok_0.tree->Some_0)" % XT, P1510),
+                  C("leaves_are_the_scripts_in_preorder", "r is Ok && nch(root.nodes@, root.index as int) == 2 ==> forall|s: Shape| #[trigger] spells(root.nodes@, %s, s) ==> "
+                    "r->Ok_0.tree is Some && walk_pushed(root.nodes@, %s, s, r->Ok_0.tree->Some_0.depths_leaves@) && r->Ok_0.tree->Some_0.depths_leaves@.len() == sh_leaves(s)" % (XT, XT), P1510),
                   C("parsed_tree_is_well_formed", "r is Ok && nch(root.nodes@, root.index as int) == 2 ==> forall|s: Shape| #[trigger] spells(root.nodes@, %s, s) ==> "
-                    "r->Ok_0.tree is Some && tap_tree_wf(r->Ok_0.tree->Some_0) && denote(tap_depths(r->Ok_0.tree->Some_0)) == s" % XT, P1510),
-              ]))
+                    "r->Ok_0.tree is Some && wf_depths(tap_depths(r->Ok_0.tree->Some_0)) && denote(tap_depths(r->Ok_0.tree->Some_0)) == s" % XT, P1510),
+              ]))[0])
         register_named_invariants(vf, "Tr::from_tree")
+    # the hypothesis of the parse clauses is not contradictory (must FAIL): a well-formed array whose node x spells {A,B}
+    own_canary(vf, "oracle::spells_hypothesis", "", "ns: Seq<TreeNode>, x: int",
+               ["wf_tree(ns)", "spells(ns, x, Shape::Node(Box::new(Shape::Leaf), Box::new(Shape::Leaf)))", "rmd(ns, x) == x + 2"])
 
 
 def spendinfo_stubs():
@@ -1633,6 +1773,7 @@ def build(repo):
     vf.item(LIB, "enum:TranslateErr", rewrites=[sub("vis", r"^enum TranslateErr", "pub enum TranslateErr")])
     with vf.block("impl<E> From<E> for TranslateErr<E>"):
         vf.fn(LIB, "impl:From<E> for TranslateErr<E>/fn:from", qual="TranslateErr", props=P11)
+    emit_expression_types(vf)
     vf.raw(S._novis(S.ORACLE))
     vf.spec_obligation("oracle::shapes_depth_lists_round_trip", S._novis(SHAPE), P15)
     vf.spec_obligation("oracle::bridge_to_the_leaf_carrying_trees", S._novis(BRIDGE), P15)
@@ -1641,7 +1782,7 @@ def build(repo):
              "the translator is a state machine: `pk` and the whole-miniscript translation are uninterpreted FUNCTIONS of (state before, argument) returning (result, state after); "
              "what the miniscript translation does per node is unit c20_translate's")
     vf.trust("FromSpecImpl<E> for TranslateErr<E> (glue)", "spec of the extracted `impl<E> From<E> for TranslateErr<E>` (its body is verified text)")
-    vf.trust("impl PartialEq for Miniscript (external_body, arbitrary verdict), struct Error (opaque)", "not used by the unchanged text; present so that code comparing leaves is judged, not rejected")
+    vf.trust("impl PartialEq for Miniscript (external_body, arbitrary verdict)", "not used by the unchanged text; present so that code comparing leaves is judged, not rejected")
     vf.trust("Tr::new (external_body): Ok iff tap_pk_ok(internal key) (uninterpreted), Ok keeps key and tree", "read off its two-line body (Tap::check_pk + struct literal; Mutex field not representable), "
              "as in c20_translate / c12_from_tree (which verifies that text)")
     emit_translate(vf)
@@ -1649,5 +1790,3 @@ def build(repo):
     emit_display(vf)
     emit_parse(vf, repo)
     return vf
-
-
